@@ -126,7 +126,7 @@ NARY_N_ROLES = ("thresh-n", "multi-n")
 
 
 def parse_output(text):
-    out = {"K": {}, "HB": {}, "V": {}, "M": {}, "H": {}, "C": {}, "P": {}, "S": {}, "W": {}, "WV": {}}
+    out = {"K": {}, "HB": {}, "V": {}, "M": {}, "H": {}, "C": {}, "P": {}, "S": {}, "W": {}, "WV": {}, "HW": {}, "HC": {}}
     for line in text.splitlines():
         f = line.split(" ")
         k = f[0]
@@ -138,8 +138,8 @@ def parse_output(text):
             out["V"].setdefault(f[1], {})[int(f[2])] = (f[3] == "1", " ".join(f[4:]))
         elif k == "M":
             out["M"].setdefault(f[1], {})[int(f[2])] = f[3]
-        elif k == "H":
-            out["H"].setdefault(f[1], {})[int(f[2])] = f[3:]
+        elif k in ("H", "HW", "HC"):
+            out[k].setdefault(f[1], {})[int(f[2])] = f[3:]
         elif k == "C":
             out["C"].setdefault(f[1], {})[int(f[2])] = tuple(f[3:6])
         elif k == "P":
@@ -397,6 +397,31 @@ def chunks(l, n):
     return [l[i:i + n] for i in range(0, len(l), n)] or [[]]
 
 
+def raw_words(tokens, hbname):
+    """Gallina list of rawword for a recorded sequence of Hasher calls."""
+    ws = []
+    for tk in tokens:
+        k, v = tk[0], tk[1:]
+        if k == "i":
+            ws.append("RI %s" % v)
+        elif k == "u":
+            ws.append("RU %s" % v)
+        elif k == "w":
+            ws.append("RW %s" % v)
+        elif k == "k":
+            ws.append("RK %s" % v)
+        elif k == "c":
+            ws.append("RC %s" % v)
+        elif k == "b":
+            try:
+                ws.append("RB %s" % hbname(v))
+            except DumpError:
+                ws.append("RB [%s]" % "; ".join(str(int(v[i:i + 2], 16)) for i in range(0, len(v), 2)))
+        else:
+            ws.append("RU 4294967295")   # a call the model has no word for: forces a mismatch
+    return "[%s]" % "; ".join(ws)
+
+
 def gen_coq(o):
     """Tables/EqOrdCasesGen.v: this run's miniscript values, pair observations and hash streams."""
     hb = o["HB"]                      # hex -> name
@@ -434,22 +459,7 @@ def gen_coq(o):
         body.append("Definition pairs_%s : list pcase := %s." % (dom, " ++ ".join(cn)))
         sl = []
         for i in range(n):
-            ws = []
-            for tk in o["H"][dom][i]:
-                k, v = tk[0], tk[1:]
-                if k == "i":
-                    ws.append("RI %s" % v)
-                elif k == "u":
-                    ws.append("RU %s" % v)
-                elif k == "w":
-                    ws.append("RW %s" % v)
-                elif k == "k":
-                    ws.append("RK %s" % v)
-                elif k == "b":
-                    ws.append("RB %s" % hbname(v))
-                else:
-                    ws.append("RU 4294967295")   # a call the model has no word for: forces a mismatch
-            sl.append("(%d, [%s])" % (i, "; ".join(ws)))
+            sl.append("(%d, %s)" % (i, raw_words(o["H"][dom][i], hbname)))
         cn = []
         for c, ch in enumerate(chunks(sl, 200)):
             body.append("Definition streams_%s_%d : list (N * list rawword) := [%s]." % (dom, c, ";\n  ".join(ch)))
@@ -504,8 +514,30 @@ def gen_coq(o):
         body.append("Definition poldom_%s : poldom := mkPolDom %s ranks_segv0 pvals_%s ppairs_%s." % (dom, "true" if dom == "sem" else "false", dom, dom))
         pnames.append("poldom_%s" % dom)
     body.append("Definition poldoms : list poldom := [%s]." % "; ".join(pnames))
+    # Hash of descriptors and concrete policies: recorded Hasher calls against desc_feed / cpol_feed
+    def stream_defs(name, rows):
+        cn = []
+        for c, ch in enumerate(chunks(rows, 200)):
+            body.append("Definition %s_%d : list (N * list rawword) := [%s]." % (name, c, ";\n  ".join(ch)))
+            cn.append("%s_%d" % (name, c))
+        body.append("Definition %s : list (N * list rawword) := %s." % (name, " ++ ".join(cn)))
+
+    def hpair_defs(name, dom):
+        rows = ["(%d, %d, %s)" % (i, j, "true" if r == "1" else "false") for (i, j), (e, c, h, r) in sorted(o["P"].get(dom, {}).items())]
+        cn = []
+        for c, ch in enumerate(chunks(rows, 1500)):
+            body.append("Definition %s_%d : list (N * N * bool) := [%s]." % (name, c, "; ".join(ch)))
+            cn.append("%s_%d" % (name, c))
+        body.append("Definition %s : list (N * N * bool) := %s." % (name, " ++ ".join(cn)))
+
+    stream_defs("dstreams", ["(%d, %s)" % (i, raw_words(t, hbname)) for i, t in sorted(o["H"].get("desc", {}).items())])
+    stream_defs("dwstreams", ["(%d, %s)" % (i, raw_words(t, hbname)) for k in ("HW", "HC") for i, t in sorted(o[k].get("desc", {}).items())])
+    hpair_defs("dhpairs", "desc")
+    stream_defs("pstreams", ["(%d, %s)" % (i, raw_words(t, hbname)) for i, t in sorted(o["H"].get("conc", {}).items())])
+    hpair_defs("phpairs", "conc")
+    body.append("Definition hashdom_run : hashdom := mkHashDom dvals dstreams dwstreams dhpairs pvals_conc pstreams phpairs.")
     head = ["(* generated by tools/props/c19.py from the output of `verif-harness eqord`; do not edit *)",
-            "From Verif Require Import EqOrdRun EqOrdDescRun EqOrdPolRun.", "Local Open Scope N_scope."]
+            "From Verif Require Import EqOrdRun EqOrdDescRun EqOrdPolRun EqOrdHashModel.", "Local Open Scope N_scope."]
     for h, nm in sorted(used.items(), key=lambda x: x[1]):
         bs = [str(int(h[i:i + 2], 16)) for i in range(0, len(h), 2)]
         head.append("Definition %s : bytes := [%s]." % (nm, "; ".join(bs)))
@@ -546,8 +578,27 @@ def coq_tie(rep, o, flagged, seed):
         rep.violation("tie:diag", "cases_match_model fails and the diagnosis did not run: " + (c3.stderr or c2.stderr)[-800:],
                       {"property": PID, "broken_tie": "Tables/EqOrdCasesCheck.v"}, False)
         return False, 0
-    pair_diag, stream_diag, spec_diag, desc_diag, wdiag, pol_diag = val
-    n_pol = 0
+    pair_diag, stream_diag, spec_diag, desc_diag, wdiag, pol_diag, hash_diag = val
+    hd_s, hd_w, hd_p, hp_s, hp_p = hash_diag
+    n_hash = 0
+    for dom, what, ids, src in (("desc", "a fresh descriptor", hd_s, "H"), ("desc", "a warmed descriptor / a clone of it", hd_w, "HW"),
+                                ("conc", "a concrete policy", hp_s, "H")):
+        for i in ids:
+            n_hash += 1
+            rep.violation("tie:hash-stream-%s" % dom, "the calls Hash::hash makes for %s [%s] %s differ from the model's feed: %s" %
+                          (what, dom, o["V"][dom][i][1], " ".join(o[src][dom][i])[:600]),
+                          {"property": PID, "seed": seed, "domain": dom, "broken_tie": "desc_policy_hash_streams_match_model",
+                           "value": o["V"][dom][i][1], "recorded_stream": o[src][dom][i]}, False)
+    for dom, prs in (("desc", hd_p), ("conc", hp_p)):
+        for (i, j) in prs:
+            n_hash += 1
+            if (dom, i, j) in flagged:
+                continue
+            rep.violation("tie:hash-pair-%s" % dom, "equality of the recorded Hasher streams of [%s] %s | %s disagrees with the model's feeds" %
+                          (dom, o["V"][dom][i][1], o["V"][dom][j][1]),
+                          {"property": PID, "seed": seed, "domain": dom, "broken_tie": "desc_policy_hash_streams_match_model",
+                           "values": {str(i): o["V"][dom][i][1], str(j): o["V"][dom][j][1]}}, False)
+    n_pol = n_hash
     for dom, rows in zip(("conc", "sem"), pol_diag):
         for (i, j, impl, model) in rows:
             n_pol += 1
@@ -647,7 +698,7 @@ def run(rep, tier, seed, replay):
         for (i, j), v in ps[3:400:97][:3]:
             samples.append({"domain": dom, "a": o["V"][dom][i][1][:300], "b": o["V"][dom][j][1][:300],
                             "eq": v[0], "cmp": v[1], "hash_equal": v[2]})
-    tie_obl = 4
+    tie_obl = 5
     rep.coverage.update({
         "obligations": len(thms) + tie_obl,
         "discharged": (len(thms) if ok else 0) + (tie_obl if tie_ok else 0),
@@ -661,7 +712,8 @@ def run(rep, tier, seed, replay):
         "distinct_nontrivial": sum(len(v) for v in o["V"].values()),
         "pairs": stats["pairs"], "triples": stats["triples"], "set_groups": stats["sets"], "clones": stats["clones"],
         "pairs_compared_in_coq": sum(len(o["P"].get(d, {})) for d in MS_DOMS + ["desc", "conc", "sem"]) + len(o["W"].get("desc", [])),
-        "hash_streams_compared_in_coq": sum(len(o["H"].get(d, {})) for d in MS_DOMS),
+        "hash_streams_compared_in_coq": sum(len(o["H"].get(d, {})) for d in MS_DOMS + ["desc", "conc"]) + len(o["HW"].get("desc", {})) + len(o["HC"].get("desc", {})),
+        "hash_pairs_compared_in_coq": sum(len(o["P"].get(d, {})) for d in MS_DOMS + ["desc", "conc"]),
         "differing_cases": ndiff,
         "rule": "generated miniscripts (type-directed, 4 contexts, all base types) + every single-step neighbour kind "
                 "(k+-1, child/key added/removed, regrouping, leaf key/hash/time changed, sugar variants, children swapped, wrapper/"
@@ -675,7 +727,7 @@ def run(rep, tier, seed, replay):
     })
     rep.assumptions = [
         "two values are structurally identical iff their canonical dumps are equal (the dump visits every field that Display prints)",
-        "Hash of descriptors and policies (derived) is judged by the oracle only (not modelled in Coq); policy ==/cmp are modelled and tied",
+        "a key feeds itself to the Hasher as one opaque atom (its own Hash impl is not modelled); policy::Semantic has no Hash impl",
         "the spend-info cache of Tr is modelled as run-time state that ==/cmp do not read; that the compiled code's answers do not depend "
         "on it (fresh / warmed / cloned operands) is observed per run on every tr pair, in Coq against the model and by the oracle",
         "keys are atoms: the key type's own Eq/Ord/Hash are assumed lawful (total_order hypothesis)"]
